@@ -225,7 +225,7 @@ mod verif_proto {
     }
 
     // a queued Ptr request is answered exactly once, with its own token, and the thread goes back to sleep
-    // @h name=proto_thread_answers_ptr tier=thorough timeout=3600 props=C08,C07,C09 role=reloader+answers+each+queued+request+with+its+own+token
+    // @h name=proto_thread_answers_ptr tier=parked timeout=3600 props=C08,C07,C09 role=reloader+answers+each+queued+request+with+its+own+token
     #[kani::proof]
     #[kani::unwind(5)]
     fn proto_thread_answers_ptr() {
@@ -279,7 +279,7 @@ mod verif_proto {
     #[kani::unwind(5)]
     fn proto_c15_dead_kept_idle() { dead_cache_case(true, false, false); }
 
-    // @h name=proto_c15_dead_kept_queued tier=thorough timeout=3600 props=C15 kind=bounded_termination role=cache+dropped+with+a+message+and+an+event+still+queued,+event+sender+kept
+    // @h name=proto_c15_dead_kept_queued tier=parked timeout=3600 props=C15 kind=bounded_termination role=cache+dropped+with+a+message+and+an+event+still+queued,+event+sender+kept
     #[kani::proof]
     #[kani::unwind(5)]
     fn proto_c15_dead_kept_queued() { dead_cache_case(true, true, true); }
@@ -289,7 +289,7 @@ mod verif_proto {
     #[kani::unwind(6)]
     fn proto_c15_dead_all_idle() { dead_cache_case(false, false, false); }
 
-    // @h name=proto_c15_dead_all_queued tier=thorough timeout=3600 props=C15 kind=bounded_termination role=cache+and+event+sender+dropped+with+an+event+still+queued
+    // @h name=proto_c15_dead_all_queued tier=parked timeout=3600 props=C15 kind=bounded_termination role=cache+and+event+sender+dropped+with+an+event+still+queued
     #[kani::proof]
     #[kani::unwind(6)]
     fn proto_c15_dead_all_queued() { dead_cache_case(false, false, true); }
@@ -317,7 +317,7 @@ mod verif_proto {
     #[kani::unwind(5)]
     fn proto_c15_idle_nothing() { idle_case(0, false); }
 
-    // @h name=proto_c15_idle_events tier=thorough timeout=3600 props=C15 kind=bounded_termination role=idle+cache+with+2+events+for+unknown+entries+and+a+Clear
+    // @h name=proto_c15_idle_events tier=parked timeout=3600 props=C15 kind=bounded_termination role=idle+cache+with+2+events+for+unknown+entries+and+a+Clear
     #[kani::proof]
     #[kani::unwind(6)]
     fn proto_c15_idle_events() { idle_case(2, true); }
